@@ -281,7 +281,7 @@ pub fn gen_world(r: &mut Rng) -> Vec<Tree> {
     let stranger = SocketAddr::new(IpAddr::V4(Ipv4Addr::new(66, 6, 6, 6)), 666);
     // half of the histories are built around one adversarial scenario, played early (while the state is simple) and once
     // more later; the other half mixes everything
-    let focus: Option<usize> = if r.chance(1, 2) { Some(*r.pick(&[18usize, 19, 20, 21, 22, 23, 24, 25, 26, 27, 28, 29, 29, 30, 8, 12])) } else { None };
+    let focus: Option<usize> = if r.chance(1, 2) { Some(*r.pick(&[18usize, 19, 20, 21, 22, 23, 24, 25, 26, 27, 28, 29, 29, 30, 31, 31, 8, 12])) } else { None };
     let nclients = if focus == Some(30) { 3 } else { *r.pick(&[1usize, 2, 2, 3, 3]) };
     let ids = [1u64, if focus == Some(30) || r.chance(1, 3) { 1 } else { 2 }, 3];
     let mut next_token = 0u64;
@@ -379,7 +379,7 @@ pub fn gen_world(r: &mut Rng) -> Vec<Tree> {
             }
         };
         // (the replay window edge, case 27, costs 260 sealed datagrams: it is played in focused histories only)
-        let w: [u32; 32] = [14, 16, 14, 3, 3, 6, 9, 9, 5, 2, 2, 2, 3, 3, 3, 2, 10, 2, 2, 3, 4, 3, 4, 3, 2, 3, 4, 0, 2, 3, 2, 2];
+        let w: [u32; 33] = [14, 16, 14, 3, 3, 6, 9, 9, 5, 2, 2, 2, 3, 3, 3, 2, 10, 2, 2, 3, 4, 3, 4, 3, 2, 3, 4, 0, 2, 3, 2, 2, 3];
         let case = match focus {
             Some(f) if step == 3 || step == 14 => f,
             _ => r.weighted(&w),
@@ -541,6 +541,24 @@ pub fn gen_world(r: &mut Rng) -> Vec<Tree> {
                 ops.push(l(vec![n(116u8)]));
             }
             23 => ops.push(l(vec![n(158u8), n(k), n(r.range(0, 300)), b(&r.bytes(300))])),
+            31 => {
+                // a recorded session played back: the client connects, exchanges a payload, the session ends, then its very
+                // datagrams (request, response, payload) arrive again in order from the same address
+                ops.push(l(vec![n(170u8), n(k), n(3u8)]));
+                ops.push(l(vec![n(105u8), n(k), b(&r.bytes(12))]));
+                ops.push(l(vec![n(150u8), n(k), n(0u8), n(0u8), n(0u8), n(0u8)]));
+                if r.chance(1, 2) {
+                    ops.push(l(vec![n(113u8), n(id)]));
+                } else {
+                    ops.push(l(vec![n(106u8), n(k)]));
+                    ops.push(l(vec![n(150u8), n(k), n(0u8), n(0u8), n(0u8), n(0u8)]));
+                }
+                for i in 0..r.range(2, 6) {
+                    ops.push(l(vec![n(159u8), n(k), n(i)]));
+                }
+                ops.push(l(vec![n(116u8)]));
+                ops.push(l(vec![n(112u8), n(id)]));
+            }
             30 => {
                 // two sessions racing for one client id across a hole in the slot table: both are challenged, the first
                 // answers and connects, a client in a lower slot leaves, then the second answers
